@@ -65,7 +65,8 @@ type Issued struct {
 	Registry  string   // registry host the service parameter named
 	ForHost   string   // host of the caller's request whose flow fetched it ("" if unknown)
 	FetchCorr int      // request that performed the fetch
-	Granted   ScopeSet // canonical form of the scopes asked for (= granted)
+	Asked     ScopeSet // canonical form of the scopes the fetch asked for
+	Granted   ScopeSet // what the token grants (= Asked, except for anonymous tokens: pull only)
 	Raw       []string // scopes as received
 	Cred      string   // credential kind presented
 	Epoch     int
@@ -94,6 +95,9 @@ type Registry struct {
 	// repository use the "*" action.
 	WildSalt uint64
 
+	// AnonymousPull: the token service hands out tokens without credentials
+	// (distribution GET flow only); they grant the pull action of what was asked.
+	AnonymousPull bool
 	// Redirect, when set, makes the registry answer some requests with a
 	// redirect to the same path on another modelled host.
 	Redirect *Redirect
@@ -731,10 +735,10 @@ func (w *World) serveRegistryLocked(r *Registry, req *http.Request, body []byte,
 					raws = append(raws, st.ChallengeScope)
 				}
 				want := Canon(raws...)
-				if !it.Granted.Equal(want) {
+				if !it.Asked.Equal(want) {
 					w.violate("token-reused-for-other-scope-set",
 						fmt.Sprintf("send #%d of request %d to %s presents token %s issued for scope set %s, but the request's hinted ∪ challenged scope set is %s",
-							nSend, corr, r.Host, it.Token, it.Granted, want), ev.Seq)
+							nSend, corr, r.Host, it.Token, it.Asked, want), ev.Seq)
 				}
 				w.count("scope_set_equalities_checked", 1)
 			}
@@ -857,6 +861,7 @@ func (w *World) serveTokenLocked(req *http.Request, body []byte, corr int, ev *E
 		return w.respond(req, code, nil, `{"errors":[{"code":"UNAUTHORIZED","message":`+fmt.Sprintf("%q", msg)+`}]}`)
 	}
 	var service, credKind string
+	anonymous := false
 	var scopes []string
 	var okCred func(r *Registry) bool
 	switch req.Method {
@@ -868,6 +873,7 @@ func (w *World) serveTokenLocked(req *http.Request, body []byte, corr int, ev *E
 		credKind = "basic(user,password)"
 		if !has {
 			credKind = "anonymous"
+			anonymous = true
 		}
 		okCred = func(r *Registry) bool { return has && r.Pass != "" && u == r.User && p == r.Pass }
 	case http.MethodPost:
@@ -902,13 +908,17 @@ func (w *World) serveTokenLocked(req *http.Request, body []byte, corr int, ev *E
 	if u, err := url.Parse(r.Realm); err != nil || u.Host != req.URL.Host || u.Path != req.URL.Path {
 		return fail(404, "this endpoint does not serve "+service)
 	}
-	if !okCred(r) {
+	if !(okCred(r) || anonymous && r.AnonymousPull) {
 		return fail(401, "invalid credential")
 	}
 	w.tokN++
 	tok := fmt.Sprintf("vtk%d.%x.%x", w.tokN, w.Seed&0xffffff, rng.Uint64())
 	it := &Issued{Token: tok, Service: service, Registry: r.Host, FetchCorr: corr,
-		Granted: Canon(scopes...), Raw: scopes, Cred: credKind, Epoch: r.epoch}
+		Asked: Canon(scopes...), Granted: Canon(scopes...), Raw: scopes, Cred: credKind, Epoch: r.epoch}
+	if anonymous {
+		it.Granted = it.Asked.pullOnly()
+		w.count("anonymous_tokens_issued", 1)
+	}
 	if st != nil {
 		it.ForHost = st.Host
 		st.fetchedWithRaw = strings.Join(append(append([]string{}, st.Hinted...), st.ChallengeScope), " ")
@@ -956,7 +966,7 @@ func (w *World) Describe() []map[string]any {
 	var out []map[string]any
 	for _, h := range hosts {
 		r := w.regs[h]
-		out = append(out, map[string]any{"host": r.Host, "scheme": r.Scheme, "realm": r.Realm, "service": r.Service,
+		out = append(out, map[string]any{"host": r.Host, "scheme": r.Scheme, "realm": r.Realm, "service": r.Service, "anonymous_pull": r.AnonymousPull,
 			"has_refresh": r.Refresh != "", "has_access": r.Access != ""})
 	}
 	return out
